@@ -953,7 +953,24 @@ def build_and_run(chk, cases, tag):
     return obs, cases
 
 
+def tuple_field_collision(accs):
+    """two by-value impls whose Self types rustc sees as the same type: one keyed by a single tuple-typed field, the
+    other by the fields spelling that tuple (KNOWN_FINDINGS try-into-tuple-field-collides)"""
+    owned = set(a[2] for a in accs if a[0] == "impl" and a[1] == "owned")
+    for tys in owned:
+        if len(tys) == 1 and tys[0].startswith("(") and tys[0].endswith(")"):
+            comps = tuple(split_top(tys[0][1:-1]))
+            if len(comps) >= 2 and comps in owned:
+                return (tys, comps)
+    return None
+
+
 def compile_class(d, msg):
+    if d["derive"] == "TryInto" and "E0119" in msg:
+        tys = [tuple(f["ty"] for f in v["fields"] if f["attr"] != ["ignore"]) for v in d["variants"]
+               if "ignore" not in (v["attr"] or [])]
+        if tuple_field_collision([("impl", "owned", t) for t in tys]):
+            return "try-into-tuple-field-collides"
     return "compile-error:%s" % d["derive"]
 
 
@@ -999,6 +1016,8 @@ def corpus():
                                               V("Other", "tuple", ["u64"]), V("Skip", "tuple", ["u64"], attr=["ignore"])])
     add("TryInto", "T", ["ref_mut"], [V("A", "tuple", ["Vec<T>", "i32"], attr=["owned"]), V("B", "named", ["Vec<T>", "i32"], attr=["ref"]),
                                       V("C", "tuple", ["Vec<T>", "i32"]), V("D", attr=["ref", "owned"])])
+    # KNOWN_FINDINGS try-into-tuple-field-collides, pinned
+    add("TryInto", "none", None, [V("C", "tuple", ["(i32, u8)"]), V("N", "tuple", ["i32", "u8"])])
     add("TryInto", "none", ["ref"], [V("Small", "tuple", ["i32"], attr=["owned"]), V("Big", "tuple", ["i32"])])
     add("TryInto", "none", None, [V("A", "tuple", ["u8"], attr=["owned"]), V("B", "tuple", ["u8"], attr=["ref"])])
     add("TryInto", "none", ["ref_mut"], [V("Z", "tuple", ["u8"], attr=["ignore"]), V("A", "tuple", ["u8"], attr=["owned", "ref"]),
@@ -1171,8 +1190,14 @@ def run(tier, seed, replay):
                                   "%s is generated for %s although %s" %
                                   (a, src.replace("\n", " "), "the variant is ignored" if why == "ignored"
                                    else "no attribute selects this reference kind for it"))
+        coll = tuple_field_collision(real[1]) if real[0] == "ok" and d["derive"] == "TryInto" else None
+        if coll:
+            chk.bump("try_into_tuple_field_collision")
+            chk.violation("try-into-tuple-field-collides", {"decl": d, "source": src, "impls": sorted(real[1]), "colliding": coll},
+                          "two impls of TryFrom<%s> for %s are generated (keys %s and %s): rustc rejects the enum with E0119: %s" %
+                          (d["name"], coll[0][0], list(coll[0]), list(coll[1]), src.replace("\n", " ")))
         if d["id"] < len(decls):
-            if real[0] == "ok" and real[1]:
+            if real[0] == "ok" and real[1] and not coll:
                 rt_cases.append((d, real[1]))
     if replay and not rt_cases:
         return finish(chk, st)
